@@ -16,8 +16,19 @@ use prqlc_parser::parser::pr;
 /// Is reset by [log_start] and [log_finish].
 static CURRENT_LOG: RwLock<Option<DebugLog>> = RwLock::new(None);
 
+// A panic while the lock is held (for instance the assertion in `log_start`
+// when a log is already running) poisons it. The log is only diagnostic state,
+// so later compilations in the process must not fail because of that.
+fn write_log() -> std::sync::RwLockWriteGuard<'static, Option<DebugLog>> {
+    CURRENT_LOG.write().unwrap_or_else(|e| e.into_inner())
+}
+
+fn read_log() -> std::sync::RwLockReadGuard<'static, Option<DebugLog>> {
+    CURRENT_LOG.read().unwrap_or_else(|e| e.into_inner())
+}
+
 pub fn log_start() {
-    let mut lock = CURRENT_LOG.write().unwrap();
+    let mut lock = write_log();
     assert!(lock.is_none());
 
     let started_at: DateTime<Utc> = SystemTime::now().into();
@@ -33,7 +44,7 @@ pub fn log_start() {
 }
 
 pub fn log_finish() -> Option<DebugLog> {
-    let mut lock = CURRENT_LOG.write().unwrap();
+    let mut lock = write_log();
     lock.take()
 }
 
@@ -47,7 +58,7 @@ pub fn log_stage(stage: Stage) {
 }
 
 pub fn log_entry(entry: impl FnOnce() -> DebugEntryKind) {
-    let mut lock: std::sync::RwLockWriteGuard<'_, Option<DebugLog>> = CURRENT_LOG.write().unwrap();
+    let mut lock: std::sync::RwLockWriteGuard<'_, Option<DebugLog>> = write_log();
     if let Some(log) = lock.as_mut() {
         if log.suppress_count > 0 {
             return;
@@ -58,7 +69,7 @@ pub fn log_entry(entry: impl FnOnce() -> DebugEntryKind) {
 }
 
 pub fn log_is_enabled() -> bool {
-    let lock: std::sync::RwLockReadGuard<'_, Option<DebugLog>> = CURRENT_LOG.read().unwrap();
+    let lock: std::sync::RwLockReadGuard<'_, Option<DebugLog>> = read_log();
     if let Some(log) = lock.as_ref() {
         log.suppress_count == 0
     } else {
@@ -153,7 +164,7 @@ pub struct LogSuppressLock(PhantomData<usize>);
 
 impl LogSuppressLock {
     fn new() -> Option<Self> {
-        let mut lock = CURRENT_LOG.write().unwrap();
+        let mut lock = write_log();
         if let Some(log) = lock.as_mut() {
             log.suppress_count += 1;
 
@@ -166,7 +177,7 @@ impl LogSuppressLock {
 
 impl Drop for LogSuppressLock {
     fn drop(&mut self) {
-        let mut lock = CURRENT_LOG.write().unwrap();
+        let mut lock = write_log();
         if let Some(log) = lock.as_mut() {
             log.suppress_count -= 1;
         }
